@@ -428,8 +428,16 @@ def load_goto(gb):
     return fns, params
 
 
+import threading
+_FAILURE_SEEN = threading.Event()
+
+
 def solve(job):
-    path, timeout = job
+    path, timeout, is_vacuity = job
+    if _FAILURE_SEEN.is_set():
+        # a counterexample of a real obligation exists already: the check fails whatever the remaining queries say; do not spend
+        # the full time-out on each of them (a changed body typically makes many of them hard)
+        timeout = min(timeout, 10)
     rc, out, err, secs = sh(['z3-new', '-T:%d' % timeout, path], timeout=timeout + 20)
     toks = out.split()
     r = toks[0] if toks and toks[0] in ('sat', 'unsat') else 'unknown'
@@ -440,6 +448,8 @@ def solve(job):
             if v.startswith('('):
                 v = '-' + re.sub(r'\D', '', v)
             model[m.group(1)] = int(v) if v not in ('true', 'false') else (1 if v == 'true' else 0)
+    if r == 'sat' and not is_vacuity:
+        _FAILURE_SEEN.set()
     return r, model, secs
 
 
@@ -517,7 +527,7 @@ def work(check, unit_c, wd_dir, tier):
             getv = '(get-value (%s))\n' % ' '.join('|%s|' % nm for nm in names) if names else ''
             with open(path, 'w') as f:
                 f.write(s.to_smt2().replace('(check-sat)', '(check-sat)\n' + getv))
-            queries.append((path, timeout))
+            queries.append((path, timeout, comment.startswith('VACUITY')))
             if not comment.startswith('VACUITY'):
                 prior.append(z3.Implies(pc, cond))
     if not queries:
@@ -545,6 +555,10 @@ def work(check, unit_c, wd_dir, tier):
         if any(v['status'] != 'FAILURE' for v in vac) and not any(o['status'] == 'FAILURE' for o in obls):
             raise Undecided('vacuous (engine Z): must-fail assertion in %s is %s' % (check.harness, vac[0]['status']))
     unk = [o for o in obls if o['status'] == 'UNKNOWN']
+    if unk and any(o['status'] == 'FAILURE' for o in obls):
+        # counterexamples were found: report them; the undecided queries are dropped from the obligation list (they were cut short)
+        obls = [o for o in obls if o['status'] != 'UNKNOWN']
+        unk = []
     if unk:
         raise Undecided('engine Z: z3 gave unknown/time-out on %s: %s' % (tag, ', '.join('%s[%s]' % (o['name'], o['desc'][:60]) for o in unk[:4])))
     return dict(obligations=obls, log='', seconds=total,
